@@ -27,6 +27,7 @@ def histogram(line):
     f = _fields(line)
     n = f.get("seqs", "").count(",") + 1
     keys = ["abc=" + f.get("abc", "?"), "mode=" + f.get("mode", "?"), "api=" + f.get("api", "?"),
+            "src=" + f.get("src", "text"),
             "arm=" + f.get("arm", "?"), "w<=%d" % (4 * ((int(f.get("w", "0")) + 3) // 4)),
             "nseq<=%d" % (4 * ((n + 3) // 4))]
     try:
@@ -53,7 +54,11 @@ SPEC = dict(
     rule="Corpus (15 documented-panic configurations, the 30-protein data set of the unit tests x 4, 3 edge "
          "cases) + generated runs: DNA (3/5) or protein, width 1..12, 2..12 sequences of length width..80 (1/25 "
          "exactly the width, planted common word, wildcards; one case in twelve: 13..40 sequences of length up to "
-         "200, width up to 20), oops via Sampler::new / SamplerBuilder or zoops via "
+         "200, width up to 20); the striped sequences are built from text through EncodedSequence::to_striped (1/2), "
+         "by StripedSequence::new from a hand-filled DenseMatrix whose unused trailing cells hold mostly "
+         "non-wildcard symbols, sometimes with a spare row (1/4), or by StripedSequence::sample (1/4; every cell "
+         "random, padding included) -- the model gets the first len cells in linear order, raw= cross-checks "
+         "all cells, oops via Sampler::new / SamplerBuilder or zoops via "
          "the builder (seeds 2..n, sometimes > n; inertia none/0..11; patience none/0..24/200..1199; both setter "
          "orders), seeded StdRng, 300..400 calls of next() (thorough 300..600), dispatcher arm default/generic/"
          "sse2/avx2, wrap rows = width + {0,1,5}. Observed after construction and after EVERY call: "
@@ -75,7 +80,8 @@ SPEC = dict(
         "frequencies count as f32 / total as f32; the theorems are parametric in that rendering)",
         "hand-written OCaml driver ocaml/sampler/driver.ml (parsing of the trace, mapping of active_sequences/"
         "active_starts/verif_starts to the report record, reading the choice list off the trace)",
-        "Rust harness harness/src/bin/sampler.rs (public API + the add-only hook Sampler::verif_starts, catch_unwind)",
+        "Rust harness harness/src/bin/sampler.rs (public API + the add-only hook Sampler::verif_starts, catch_unwind; "
+        "the linear order of a striped matrix: symbol i at row i mod R, column i div R)",
         "modelled, not verified: sampler.rs itself (the Gallina model SamplerModel.v follows _new, SamplerBuilder, "
         "select_holdout, include_sequence, exclude_sequence, prepare_pssm/background(), update_holdout, "
         "Iterator::next statement by statement with every panic site explicit; tied to the code only by the "
